@@ -580,6 +580,8 @@ def main(res, tier, rng, replay):
             kind = 'derived'
         if i % 20 == 7:
             kind = 'wide'
+        if i % 20 == 13:
+            kind = 'twin'
         try:
             if kind == 'plan':
                 d = GV.plan_design(r, wmax=r.choice([1, 3, 8, 16, 33]))
@@ -593,6 +595,8 @@ def main(res, tier, rng, replay):
                 d = GV.derived_clock_design(r)
             elif kind == 'wide':
                 d = GV.wide_design(r)
+            elif kind == 'twin':
+                d = GV.twin_design(r)
             else:
                 d = GV.hier_design(r)
         except Exception as e:
